@@ -30,13 +30,15 @@ CASE_TIMEOUT = 900
 
 def gen_cases(tier, seed):
     i = 0
-    sizes = [[0], [1], [5], [200], [1, 0], [5, 5], [5, 1, 200]] if tier == 'quick' else \
-        [[0], [1], [5], [200], [1, 0], [0, 1], [5, 5], [5, 1, 200], [200, 200], [0, 0, 0], [1, 1, 1]]
+    sizes = [[0], [1], [5], [200], [1, 0], [5, 5], [5, 1, 200], [3, 20000]] if tier == 'quick' else \
+        [[0], [1], [5], [200], [1, 0], [0, 1], [5, 5], [5, 1, 200], [200, 200], [0, 0, 0], [1, 1, 1], [3, 150000]]
     for sz in sizes:
         for fmt in ('csv', 'json'):
             for pretty in (True, False):
                 if tier == 'quick' and not pretty and len(sz) > 1:
                     continue
+                if max(sz) > 10000 and (fmt != 'csv' or not pretty):
+                    continue        # one large-last-resource configuration (long copies) is enough
                 i += 1
                 yield {'family': fmt, 'sizes': sz, 'format': fmt, 'pretty': pretty, 'idx': i, 'seed': seed, 'tier': tier}
 
@@ -96,7 +98,31 @@ def run_case(case):
             if pr and not online:
                 online.append('before event %d (%s %s): %s' % (n, kind, detail, pr))
         plan.on_event = on_event
-        rep = run_dump('rec')
+        # polling monitor: a sampler thread evaluates the same invariant every ~0.5 ms while the dump runs, so that
+        # an interruption point between two events of DIFFERENT threads (concurrent writers) is observed as well
+        import threading
+        import time
+        stop = threading.Event()
+        polls = [0]
+
+        def sampler():
+            while not stop.is_set():
+                polls[0] += 1
+                try:
+                    pr = snapshot_problem('rec')
+                except Exception:
+                    pr = None
+                if pr and not online:
+                    online.append('at a sampled instant: %s' % pr)
+                time.sleep(0.0005)
+        th = threading.Thread(target=sampler, daemon=True)
+        th.start()
+        try:
+            rep = run_dump('rec')
+        finally:
+            stop.set()
+            th.join(2)
+        rep['polls'] = polls[0]
         rep['trace'] = list(plan.trace)
         rep['unshimmed'] = list(plan.unshimmed)
         rep['online'] = online
@@ -104,19 +130,27 @@ def run_case(case):
         return rep
     code, rec = crashlab.in_child(record, os.path.join(scratch, 'rep.json'))
     assert code == 0 and rec and rec['ok'], (code, rec)
-    if rec['unshimmed']:
-        return dict(nontrivial=False, violations=[], cov=cov, counters=counters,
-                    inconclusive='unshimmed file-system events: %r' % rec['unshimmed'][:3])
+    counters['unshimmed_events'] += len(rec['unshimmed'])     # audit-level events (also crash points)
     trace = rec['trace']
     K = len(trace)
     counters['online_invariant_checks'] = rec.get('online_checks', 0)
+    counters['sampler_polls'] = rec.get('polls', 0)
     if rec.get('online'):
         add('online_invariant', 'during an uninterrupted dump the directory violated the invariant %s' % rec['online'][0],
             'online/' + ('listed_file_missing' if 'does not exist' in rec['online'][0] else 'listed_file_incomplete'))
     ks = list(range(1, K + 2))
     sampled = False
     if case['tier'] == 'quick' and K > 80:
-        ks = sorted(set(ks[:25] + ks[-25:] + ks[::7]))
+        ks = sorted(set(ks[:25] + ks[-40:] + ks[::max(7, K // 60)]))
+        sampled = True
+    elif K > 4000:
+        ks = sorted(set(ks[:200] + ks[-400:] + ks[::K // 600]))
+        sampled = True
+    big = max(case['sizes']) > 10000
+    if big:
+        # large-last-resource configuration: decided mainly by the online / sampled invariant of the recording pass;
+        # kills only around the copies and the descriptor (the last events)
+        ks = ks[-(45 if case['tier'] == 'quick' else 300):]
         sampled = True
     cov['crash_event_kind']['__sampled__' if sampled else '__all__'] = 1
 
@@ -147,7 +181,8 @@ def run_case(case):
         if len(desc.get('resources', [])) != len(tables):
             add('descriptor_resources', '%s: descriptor lists %d resources of %d' %
                 (what, len(desc.get('resources', [])), len(tables)), 'descriptor_resources')
-    modes = [('kill', k) for k in ks] + [('raise', k) for k in ks if k <= K and (k % 3 == 0 or case['tier'] == 'thorough')]
+    modes = [('kill', k) for k in ks] + [('raise', k) for k in ks
+                                         if k <= K and not big and (k % 3 == 0 or case['tier'] == 'thorough')]
     for mode, k in modes:
         out = '%s%d' % (mode[0], k)
 
